@@ -22,6 +22,9 @@ pub struct FaultPlan {
     pub kind: String,
     /// bitmask of node ids whose calls are counted
     pub nodes: u64,
+    /// count only calls on open handles
+    #[serde(default)]
+    pub handles_only: bool,
 }
 
 #[derive(Clone, Debug, Serialize, Deserialize, PartialEq)]
@@ -538,20 +541,26 @@ pub fn fault_window(cx: &mut SeqCtx, i: usize) -> bool {
         Some(p) => p.clone(),
         None => return false,
     };
-    let ctl = cx.built[0].ctl.clone();
+    // every filesystem of the run (each counts its own calls)
+    let ctls: Vec<_> = cx.built.iter().map(|b| b.ctl.clone()).collect();
     if i == plan.op_index {
-        let mut f = ctl.fault.lock().unwrap();
-        f.armed = true;
-        f.counter = 0;
-        f.tripped = false;
-        f.fail_at = Some(plan.k);
-        f.sticky = plan.sticky;
-        f.kind = io_kind(&plan.kind);
-        f.nodes = plan.nodes;
-        drop(f);
-        ctl.fault_on.store(true, std::sync::atomic::Ordering::SeqCst);
+        for ctl in &ctls {
+            let mut f = ctl.fault.lock().unwrap();
+            f.armed = true;
+            f.counter = 0;
+            f.tripped = false;
+            f.fail_at = Some(plan.k);
+            f.sticky = plan.sticky;
+            f.kind = io_kind(&plan.kind);
+            f.nodes = plan.nodes;
+            f.handles_only = plan.handles_only;
+            drop(f);
+            ctl.fault_on.store(true, std::sync::atomic::Ordering::SeqCst);
+        }
     } else if i == plan.op_index + 1 {
-        ctl.fault.lock().unwrap().armed = false;
+        for ctl in &ctls {
+            ctl.fault.lock().unwrap().armed = false;
+        }
         return true;
     }
     false
